@@ -122,18 +122,21 @@ func (t *KernMethod) TransferGovernTokens(ctx contract.KContext) (*contract.Resp
 	}
 	senderBalance.TotalBalance.Sub(senderBalance.TotalBalance, amount)
 
-	// 设置receiver余额
-	receiverBalance := utils.NewGovernTokenBalance()
-	receiverBalance.TotalBalance.Set(amount)
-
-	// 查询receiver余额并更新
+	// 查询receiver余额并更新: the receiver keeps its whole record (locks included), a new
+	// account starts from zero; when sender and receiver are the same account the record
+	// that was just debited is the one credited
 	receiverKey := utils.MakeAccountBalanceKey(string(receiverBuf))
-	receiverBalanceBuf, err := ctx.Get(utils.GetGovernTokenBucket(), []byte(receiverKey))
-	if err == nil {
-		receiverBalanceOld := &utils.GovernTokenBalance{}
-		json.Unmarshal(receiverBalanceBuf, receiverBalanceOld)
-		receiverBalance.TotalBalance.Add(receiverBalance.TotalBalance, receiverBalanceOld.TotalBalance)
+	receiverBalance := senderBalance
+	if string(receiverBuf) != sender {
+		receiverBalance = utils.NewGovernTokenBalance()
+		receiverBalanceBuf, err := ctx.Get(utils.GetGovernTokenBucket(), []byte(receiverKey))
+		if err == nil {
+			if err := json.Unmarshal(receiverBalanceBuf, receiverBalance); err != nil {
+				return nil, fmt.Errorf("transfer gov tokens failed, parse receiver balance error")
+			}
+		}
 	}
+	receiverBalance.TotalBalance.Add(receiverBalance.TotalBalance, amount)
 
 	// 更新sender余额
 	senderBalanceBuf, _ := json.Marshal(senderBalance)
@@ -144,7 +147,7 @@ func (t *KernMethod) TransferGovernTokens(ctx contract.KContext) (*contract.Resp
 	}
 
 	// 更新receiver余额
-	receiverBalanceBuf, _ = json.Marshal(receiverBalance)
+	receiverBalanceBuf, _ := json.Marshal(receiverBalance)
 	err = ctx.Put(utils.GetGovernTokenBucket(), []byte(receiverKey), receiverBalanceBuf)
 	if err != nil {
 		return nil, fmt.Errorf("transfer gov tokens failed, update receriver's balance")
